@@ -18,7 +18,7 @@ import (
 
 func init() { Registry["C15"] = checkC15 }
 
-var c15seps = []string{"", " ", "\t", "'", `"`, `\`, "=", ";", "--", "/*", "*/", "\n", "é", "  ", "' OR '", `" = "`, "password", " with password ", "$"}
+var c15seps = []string{"", " ", "\t", "'", `"`, `\`, "=", ";", "--", "/*", "*/", "\n", "é", "  ", "' OR '", `" = "`, "password", " with password ", "$", "İ", "K", "/* a\n b */", "*"}
 
 type c15stmt struct {
 	toks    []gen.Tok
@@ -28,7 +28,7 @@ type c15stmt struct {
 	user    string
 }
 
-var c15users = []string{"admin", "jo hn", "a=b", `q"t`, "x'y", "password", "for", "with", "é", "a = b", "u--c", "pass word for x = "}
+var c15users = []string{"admin", "jo hn", "a=b", `q"t`, "x'y", "password", "for", "with", "é", "a = b", "u--c", "pass word for x = ", "İstanbul", "KelvinKK", "ẞtraße", "ȺȾ", "ΩΩÅ", "日本語"}
 
 func c15Markers(rg *mon.Rng, n int) []string {
 	const al = "BCDFGHJKLMNPQRSTVWXZ"
@@ -101,7 +101,7 @@ func c15Render(rg *mon.Rng, toks []gen.Tok, want int, comments bool) (string, in
 				g = []string{"", "", " ", "\n", "\t"}[rg.Intn(5)]
 			}
 			if comments && rg.P(0.3) {
-				g = g + []string{" /* c */ ", " -- c\n", "\n/* x = 'y' */\n", " /* password 'zz' */ "}[rg.Intn(4)]
+				g = g + []string{" /* c */ ", " -- c\n", "\n/* x = 'y' */\n", " /* password 'zz' */ ", " /* two\nlines */ ", " /* * ** / */ ", " -- İ\u212A\r\n"}[rg.Intn(7)]
 			}
 		}
 		sb.WriteString(g)
